@@ -20,6 +20,9 @@ CLAIMED = {
  "C05": ("deterministic simulation: request histories from concurrent clients against the real mux with route cache, compared with quiescent cache-less / filter-less twins of the same code",
          "Seeded search over allow/block lists at three levels x client addresses x request histories that populate the route cache x client interleavings; denial and routing are compared with twins and with net.IPNet membership.",
          "DESIGN.md §6 C05", "routing itself is taken from a twin of the same code (C01's domain is not judged)."),
+ "C06": ("deterministic simulation: credentials produced by an independent issuer on a skewed issuer clock, delivered over a simulated TCP network through the real http.Server+mux (which drains the body) to the real Validator at drawn validator-clock instants (exp/nbf/TTL edges), with single-field corruption in flight",
+         "Seeded search over validator configurations (headers/JWT/signature/basic, combined) x requests x issuer-vs-validator clock skew and exact boundary instants x one in-flight mutation of a covered element x body segmentation; accept/reject, result string, status and the body that would be forwarded are compared with what the credentials and the clock dictate.",
+         "DESIGN.md §6 C06", "the issuer (JWT writer, SigV4-style signer, Basic encoder) is harness code written from the documented algorithms; both answers are accepted exactly on time edges; oauth2 and basicAuth FILE mode are not generated."),
  "C07": ("deterministic simulation: same real HTTP chain as C03 with body sizes on and around the effective limits, declared/chunked/lying lengths, over a simulated TCP network",
          "Seeded search over limit settings at path/server/pool/proxy level x body sizes around the limit x encodings x segmentation; the client-visible status/body and what the backend saw are compared with the limit rules of the statement.",
          "DESIGN.md §6 C07", "the 4 MiB default is exercised in the thorough tier only."),
@@ -41,6 +44,12 @@ CLAIMED = {
  "C14": ("deterministic simulation: concurrent MQTT client tasks driving the real TopicManager/processSubscribe/processUnsubscribe/closeAndDelSession under the seeded scheduler, compared with an MQTT 3.1.1 reference matcher",
          "Seeded search over subscribe/unsubscribe/disconnect histories x filters with wildcards/empty levels/malformed x LRU sizes x interleavings; routing results and residue are compared with a reference subscription set.",
          "DESIGN.md §6 C14", ""),
+ "C15": ("deterministic simulation: real MQTT Broker (read/write loops, sessions, resend ticker on the virtual clock, topic manager) listening on the simulated network, raw MQTT clients with scripted PUBACK behaviour (prompt, omitted k times, delayed, duplicated, stop reading), publishes through the real HTTP publish handler; subscriber enumeration order is a seeded choice (map-range rewriting)",
+         "Seeded search over subscriber populations with overlapping filters and mixed QoS x message QoS x enumeration orders x ack behaviours x bursts that overflow the outbound queue x interleavings; every publish must reach every eligible client (QoS0 loss only with a provably full queue), none ineligible, un-acked QoS1 packets are retransmitted until acked and not after, client QoS1 PUBLISHes reach the backend pipeline and are acked with the same id.",
+         "DESIGN.md §6 C15", "storage is the repo's mock storage; QoS2, retained messages, wills and takeover are not generated (takeover is C16)."),
+ "C17": ("deterministic simulation: real LimitListener+Semaphore under a real http.Server, the whole real httpserver runtime reconfigured through its event channel, and the real MQTT Broker, all on the simulated network with concurrent connects/closes/resets, SetMaxConnection sequences and aborted handshakes; open-connection counting oracle evaluated at every quiescent instant",
+         "Seeded search over client populations x connect/idle/close/reset patterns x cap changes (grow, shrink below usage, back-to-back) x interleavings; open <= cap whenever no adjustment is pending, no accept at or above an applied cap, no established connection dropped by a shrink, released capacity is reusable (final phase admits exactly cap fresh connections), MQTT connects beyond the cap are refused with server-unavailable.",
+         "DESIGN.md §6 C17", "a takeover of a connected id at the cap is accepted both ways (statement silent)."),
  "C20": ("deterministic simulation: snapshot sequences fed through a mocked cluster syncer into the real Supervisor/ObjectRegistry/TrafficController/RawConfigTrafficController with panicking lifecycle callbacks, per-name lifecycle automaton as oracle",
          "Seeded search over snapshot histories (appear/change/unchanged/disappear/reappear/kind change/coalesced) x injected panics in Init/Inherit/Close x goroutine interleavings; recorded lifecycle calls are compared with the sequence derived from the snapshots.",
          "DESIGN.md §6 C20", "the cluster is clustertest.MockedCluster; object kinds are recording test kinds."),
